@@ -234,40 +234,6 @@ Proof.
   - rewrite IH. cbn. destruct (F (b, a) x); reflexivity.
 Qed.
 
-(* ---- the iterated inversion ---- *)
-Ltac minv_step :=
-  match goal with
-  | H : bind _ _ _ = Some _ |- _ =>
-      let a := fresh "a" in let t1 := fresh "t" in let H1 := fresh "H" in
-      apply bind_inv in H; destruct H as (a & t1 & H1 & H); cbv beta zeta in H1, H
-  | H : @ret _ _ _ _ = Some (_, _) |- _ => apply ret_inv in H; destruct H as [? ?]; subst
-  | H : @raise _ _ _ = Some _ |- _ => discriminate H
-  | H : getitem _ _ _ = Some (_, _) |- _ => apply getitem_inv in H; destruct H as [H ?]; subst
-  | H : getitem_last _ _ _ = Some (_, _) |- _ => apply getitem_last_inv in H; destruct H as (? & H & ?); subst
-  | H : getitem_z _ _ _ = Some (_, _) |- _ => apply getitem_z_inv in H; destruct H as [H ?]; subst
-  | H : setitem _ _ _ _ = Some (_, _) |- _ => apply setitem_inv in H; destruct H as (H & ? & ?); subst
-  | H : lift _ _ = Some (_, _) |- _ => apply lift_inv in H; destruct H as [H ?]; subst
-  | H : set_cd _ _ _ = Some (_, _) |- _ => apply set_cd_inv in H; subst
-  | H : get_cd _ _ = Some (_, _) |- _ => apply get_cd_inv in H; destruct H as [H ?]; subst
-  | H : (if ?c then _ else _) _ = Some _ |- _ => let E := fresh "Ec" in destruct c eqn:E
-  end.
-
-Ltac minv := repeat minv_step.
-
-(* two reads of the same place returned the same thing *)
-Ltac same_reads :=
-  repeat match goal with
-         | H1 : ?x = Some ?a, H2 : ?x = Some ?b |- _ =>
-             first [ constr_eq a b; clear H2
-                   | rewrite H1 in H2; injection H2 as <- ]
-         end.
-
-(* the hand model reads with defaults: replace `nth i l d` by what the successful read returned *)
-Ltac reads_to_nth :=
-  repeat match goal with
-         | H : nth_error ?l ?i = Some ?x |- context [nth ?i ?l ?d] => rewrite (nth_error_nth l i d H)
-         end.
-
 (* ---- the attribute table ---- *)
 Section Table.
   Variable o : numops.
@@ -345,3 +311,112 @@ Section TableRead.
     write_fronts o t (init ++ [lastf]) = write_cd o (write_fronts o t init) lastf (assign_crowding o lastf).
   Proof. unfold write_fronts. now rewrite fold_left_app. Qed.
 End TableRead.
+
+(* ---- simulation lemmas: a regenerated loop against a model loop over related states ---- *)
+Section Sim.
+  Variable o : numops.
+
+  Lemma for_list_sim {X S S'} (R : S -> S' -> Prop) (F : S' -> X -> S') xs (body : X -> S -> M o S) :
+    (forall x s m t s1 t1, In x xs -> R s m -> body x s t = Some (s1, t1) -> R s1 (F m x) /\ t1 = t) ->
+    forall s m t s1 t1, R s m -> for_list xs body s t = Some (s1, t1) -> R s1 (fold_left F xs m) /\ t1 = t.
+  Proof.
+    induction xs as [|x r IH]; intros Hb s m t s1 t1 HR H; cbn in *.
+    - apply ret_inv in H as [-> ->]; auto.
+    - apply bind_inv in H as (a & t2 & H1 & H2).
+      destruct (Hb x s m t a t2 (or_introl eq_refl) HR H1) as [HR' ->].
+      eapply IH; eauto.
+  Qed.
+
+  (* the model side of a `while`: iterate step' while cond' holds, at most fuel times *)
+  Fixpoint iter_fuel {S'} (fuel : nat) (cond' : S' -> bool) (step' : S' -> S') (m : S') : option S' :=
+    if cond' m then
+      match fuel with
+      | O => None
+      | Datatypes.S f => iter_fuel f cond' step' (step' m)
+      end
+    else Some m.
+
+  Lemma while_sim {S S'} (R : S -> S' -> Prop) (cond : S -> bool) (cond' : S' -> bool) (step' : S' -> S')
+        (body : S -> M o S) :
+    (forall s m, R s m -> cond s = cond' m) ->
+    (forall s m t s1 t1, R s m -> cond s = true -> body s t = Some (s1, t1) -> R s1 (step' m) /\ t1 = t) ->
+    forall fuel s m t s1 t1, R s m -> while_fuel fuel cond body s t = Some (s1, t1) ->
+      exists m1, iter_fuel fuel cond' step' m = Some m1 /\ R s1 m1 /\ t1 = t.
+  Proof.
+    intros Hc Hb. induction fuel as [|f IH]; intros s m t s1 t1 HR H; cbn in *.
+    - rewrite <- (Hc s m HR). destruct (cond s); [discriminate H|].
+      apply ret_inv in H as [-> ->]. eauto.
+    - rewrite <- (Hc s m HR). destruct (cond s) eqn:E.
+      + apply bind_inv in H as (a & t2 & H1 & H2).
+        destruct (Hb s m t a t2 HR E H1) as [HR' ->]. eapply IH; eauto.
+      + apply ret_inv in H as [-> ->]. eauto.
+  Qed.
+
+  Lemma setitem_last_inv {A} (l : list A) j v (t : cdtab o) r t' :
+    setitem_last l j v t = Some (r, t') -> 1 <= j <= length l /\ r = set_nth l (length l - j) v /\ t' = t.
+  Proof.
+    unfold setitem_last. destruct ((1 <=? j) && (j <=? length l)) eqn:E; [|discriminate].
+    apply andb_true_iff in E as [E1 E2]. apply Nat.leb_le in E1, E2.
+    intro H; apply ret_inv in H as [-> ->]. auto.
+  Qed.
+End Sim.
+
+(* fronts[-1].extend(xs) on a list of lists whose last element is `lst` *)
+Lemma set_last_snoc {A} (init : list A) lst v : set_nth (init ++ [lst]) (length (init ++ [lst]) - 1) v = init ++ [v].
+Proof.
+  rewrite app_length. cbn [length]. replace (length init + 1 - 1) with (length init) by lia.
+  induction init as [|x init IH]; cbn; [reflexivity|]. now rewrite IH.
+Qed.
+
+Lemma nth_error_snoc_last {A} (init : list A) lst x :
+  nth_error (init ++ [lst]) (length (init ++ [lst]) - 1) = Some x -> x = lst.
+Proof.
+  rewrite app_length. cbn [length]. replace (length init + 1 - 1) with (length init) by lia.
+  rewrite nth_error_app2 by lia. rewrite Nat.sub_diag. cbn. now inversion 1.
+Qed.
+
+Lemma sl_from {A} (l : list A) n : sl l (Some (Z.of_nat n)) None = skipn n l.
+Proof.
+  rewrite sl_spec. cbn zeta.
+  destruct (Z.of_nat n <? 0)%Z eqn:E; [apply Z.ltb_lt in E; lia|].
+  destruct (Nat.le_gt_cases n (length l)) as [L|G].
+  - rewrite Z.min_l by lia. rewrite Nat2Z.id. apply firstn_all2. rewrite skipn_length. lia.
+  - rewrite Z.min_r by lia. rewrite Nat2Z.id, Z.sub_diag. cbn [Z.to_nat firstn].
+    symmetry. apply skipn_all2. lia.
+Qed.
+
+(* ---- the iterated inversion ---- *)
+Ltac minv_step :=
+  match goal with
+  | H : bind _ _ _ = Some _ |- _ =>
+      let a := fresh "a" in let t1 := fresh "t" in let H1 := fresh "H" in
+      apply bind_inv in H; destruct H as (a & t1 & H1 & H); cbv beta zeta in H1, H
+  | H : @ret _ _ _ _ = Some (_, _) |- _ => apply ret_inv in H; destruct H as [? ?]; subst
+  | H : @raise _ _ _ = Some _ |- _ => discriminate H
+  | H : getitem _ _ _ = Some (_, _) |- _ => apply getitem_inv in H; destruct H as [H ?]; subst
+  | H : getitem_last _ _ _ = Some (_, _) |- _ => apply getitem_last_inv in H; destruct H as (? & H & ?); subst
+  | H : getitem_z _ _ _ = Some (_, _) |- _ => apply getitem_z_inv in H; destruct H as [H ?]; subst
+  | H : setitem _ _ _ _ = Some (_, _) |- _ => apply setitem_inv in H; destruct H as (H & ? & ?); subst
+  | H : setitem_last _ _ _ _ = Some (_, _) |- _ => apply setitem_last_inv in H; destruct H as (H & ? & ?); subst
+  | H : lift _ _ = Some (_, _) |- _ => apply lift_inv in H; destruct H as [H ?]; subst
+  | H : set_cd _ _ _ = Some (_, _) |- _ => apply set_cd_inv in H; subst
+  | H : get_cd _ _ = Some (_, _) |- _ => apply get_cd_inv in H; destruct H as [H ?]; subst
+  | H : (if ?c then _ else _) _ = Some _ |- _ => let E := fresh "Ec" in destruct c eqn:E
+  end.
+
+Ltac minv := repeat minv_step.
+
+(* two reads of the same place returned the same thing *)
+Ltac same_reads :=
+  repeat match goal with
+         | H1 : ?x = Some ?a, H2 : ?x = Some ?b |- _ =>
+             first [ constr_eq a b; clear H2
+                   | rewrite H1 in H2; injection H2 as <- ]
+         end.
+
+(* the hand model reads with defaults: replace `nth i l d` by what the successful read returned *)
+Ltac reads_to_nth :=
+  repeat match goal with
+         | H : nth_error ?l ?i = Some ?x |- context [nth ?i ?l ?d] => rewrite (nth_error_nth l i d H)
+         end.
+
